@@ -64,6 +64,21 @@ Proof.
   destruct (in_class t valid); intros H; [|discriminate]. injection H as <-. now split.
 Qed.
 
+Lemma offset_class t : in_class t valid_types_for_offset = true -> t = VPrim Usize.
+Proof. destruct t as [p|i|i]; [destruct p|..]; cbn; intros H; try discriminate; reflexivity. Qed.
+
+(* the AdvancePointer branch of resolve_binary_op_type *)
+Lemma advance_type_ok l r t :
+  bind (get_type_of_operand r) (fun offset_type =>
+  bind (analyze_operand_type offset_type valid_types_for_offset) (fun _ =>
+  get_type_of_operand l)) = Ok t ->
+  value_type l = Some (ROk t) /\ value_type r = Some (ROk (VPrim Usize)).
+Proof.
+  intros H. apply bind_ok in H as [ot [Hot H]]. apply bind_ok in H as [u [Hu H]].
+  apply analyze_operand_type_ok in Hu as [_ Hu]. apply offset_class in Hu. subst ot.
+  apply of_ann_ok in Hot. apply of_ann_ok in H. now split.
+Qed.
+
 Lemma match_type_ok l r t :
   match_type_of_operands l r = Ok t ->
   value_type l = Some (ROk t) /\ value_type r = Some (ROk t).
@@ -128,7 +143,7 @@ Proof.
     cbn [rtype]. unfold resolve_binary_op_type in Ht.
     apply bind_ok in Ht as [vt [Hvt Ht]]. apply analyze_operand_type_ok in Ht as [-> _].
     destruct (is_advance op).
-    + now apply of_ann_ok in Hvt.
+    + now apply advance_type_ok in Hvt.
     + now apply match_type_ok in Hvt.
   - apply bind_ok in H as [x' [Hx H]]. apply bind_ok in H as [t [Ht H]]. injection H as <-.
     cbn [rtype]. unfold resolve_unary_op_type in Ht.
@@ -159,13 +174,15 @@ Proof. intros H. rewrite (resolve_type_agrees _ _ H). discriminate. Qed.
 Lemma binary_op_type_ok op l r l' r' t :
   resolve_expr l = Ok l' -> resolve_expr r = Ok r' ->
   resolve_binary_op_type op l r = Ok t ->
-  rtype l' = t /\ (is_advance op = true \/ rtype r' = t) /\ in_class t (binop_valid_types op) = true.
+  rtype l' = t /\ rtype r' = (if is_advance op then VPrim Usize else t)
+  /\ in_class t (binop_valid_types op) = true.
 Proof.
   intros Hl Hr Ht. unfold resolve_binary_op_type in Ht.
   apply bind_ok in Ht as [vt [Hvt Ht]]. apply analyze_operand_type_ok in Ht as [-> Hc].
   apply resolve_type_agrees in Hl. apply resolve_type_agrees in Hr.
   destruct (is_advance op).
-  - apply of_ann_ok in Hvt. rewrite Hl in Hvt. injection Hvt as ->. auto.
+  - apply advance_type_ok in Hvt as [H1 H2]. rewrite Hl in H1. rewrite Hr in H2.
+    injection H1 as ->. injection H2 as ->. auto.
   - apply match_type_ok in Hvt as [H1 H2]. rewrite Hl in H1. rewrite Hr in H2.
     injection H1 as ->. injection H2 as ->. auto.
 Qed.
@@ -184,7 +201,6 @@ Qed.
 
 Theorem resolve_sound : forall e r, resolve_expr e = Ok r -> well_typed r = true.
 Proof.
-  unfold well_typed.
   induction e as [k a|p|op l r IHl IHr|op e IHe|e IHe|e t IHe|e t IHe|e a IHe|f args a IHargs]
     using texpr_ind2; intros res H; cbn [resolve_expr] in H.
   - apply bind_ok in H as [t [_ H]]. now injection H as <-.
@@ -192,32 +208,30 @@ Proof.
   - apply bind_ok in H as [lr [Hlr H]]. apply bind_ok in H as [t [Ht H]]. injection H as <-.
     apply combine2_ok in Hlr as [Hl Hr].
     destruct (binary_op_type_ok _ _ _ _ _ _ Hl Hr Ht) as [H1 [H2 H3]].
-    cbn [well_typed_gen negb andb]. rewrite (IHl _ Hl), (IHr _ Hr), H3.
-    rewrite H1, vtype_eqb_refl. cbn [andb].
-    destruct H2 as [H2|H2]; [rewrite H2; reflexivity|].
-    rewrite H2, vtype_eqb_refl. now rewrite orb_true_r.
+    cbn [well_typed]. rewrite (IHl _ Hl), (IHr _ Hr), H3.
+    now rewrite H1, H2, !vtype_eqb_refl.
   - apply bind_ok in H as [x' [Hx H]]. apply bind_ok in H as [t [Ht H]]. injection H as <-.
     unfold resolve_unary_op_type in Ht.
     apply bind_ok in Ht as [vt [Hvt Ht]]. apply analyze_operand_type_ok in Ht as [-> Hc].
     apply of_ann_ok in Hvt. rewrite (resolve_type_agrees _ _ Hx) in Hvt. injection Hvt as Hvt.
-    cbn [well_typed_gen]. now rewrite (IHe _ Hx), Hvt, vtype_eqb_refl, Hc.
-  - apply bind_ok in H as [x' [Hx H]]. injection H as <-. cbn [well_typed_gen]. now apply IHe.
-  - apply bind_ok in H as [x' [Hx H]]. injection H as <-. cbn [well_typed_gen]. now apply IHe.
+    cbn [well_typed]. now rewrite (IHe _ Hx), Hvt, vtype_eqb_refl, Hc.
+  - apply bind_ok in H as [x' [Hx H]]. injection H as <-. cbn [well_typed]. now apply IHe.
+  - apply bind_ok in H as [x' [Hx H]]. injection H as <-. cbn [well_typed]. now apply IHe.
   - apply bind_ok in H as [x' [Hx H]]. apply bind_ok in H as [et [Het H]].
     destruct et as [src|]; injection H as <-; [|now apply IHe].
     unfold analyze_primitive_cast in Het. apply bind_ok in Het as [vt [Hvt Het]].
     apply of_ann_ok in Hvt. rewrite (resolve_type_agrees _ _ Hx) in Hvt. injection Hvt as <-.
     destruct (vtype_eqb (rtype x') t); [discriminate|].
     destruct (prim_conversion (rtype x') t) eqn:Ec; [|discriminate]. injection Het as <-.
-    cbn [well_typed_gen]. now rewrite (IHe _ Hx), vtype_eqb_refl, Ec.
+    cbn [well_typed]. now rewrite (IHe _ Hx), vtype_eqb_refl, Ec.
   - apply bind_ok in H as [x' [Hx H]]. apply bind_ok in H as [ct [Hct H]]. injection H as <-.
     unfold analyze_bit_cast in Hct.
     apply bind_ok in Hct as [vt [Hvt Hct]]. apply bind_ok in Hct as [ct' [_ Hct]].
     apply of_ann_ok in Hvt. rewrite (resolve_type_agrees _ _ Hx) in Hvt. injection Hvt as <-.
     destruct (is_valid_bit_cast (rtype x') ct') eqn:Eb; [|discriminate]. injection Hct as <-.
-    cbn [well_typed_gen]. now rewrite (IHe _ Hx), Eb.
+    cbn [well_typed]. now rewrite (IHe _ Hx), Eb.
   - apply bind_ok in H as [args' [Hargs H]]. apply bind_ok in H as [rt [_ H]]. injection H as <-.
-    cbn [well_typed_gen]. apply resolve_list_ok in Hargs.
+    cbn [well_typed]. apply resolve_list_ok in Hargs.
     apply forallb_forall. intros y Hy.
     induction Hargs as [|x y0 xs ys Hxy _ IH]; [contradiction|].
     inversion IHargs as [|? ? HPx HPxs]; subst.
@@ -331,14 +345,27 @@ Proof.
   unfold analyze_operand_type. now rewrite valid_operand_in_class, Hc.
 Qed.
 
-(* AdvancePointer: only the LEFT operand is looked at *)
+(* AdvancePointer: the offset is checked first (it must be a usize), then the pointer *)
+Theorem advance_offset_rejected l r b :
+  value_type r = Some (ROk b) -> b <> VPrim Usize ->
+  exists es, resolve_expr (TBinary AdvancePointer l r) = Err es /\ node_errors2 l r [E550] es.
+Proof.
+  intros Hr Hb. apply binary_rejected.
+  unfold resolve_binary_op_type, get_type_of_operand. cbn [is_advance]. rewrite Hr. cbn [of_ann bind].
+  unfold analyze_operand_type. rewrite valid_operand_in_class.
+  destruct (in_class b valid_types_for_offset) eqn:E; [|reflexivity].
+  apply offset_class in E. contradiction.
+Qed.
+
 Theorem class_violation_rejected_advance l r a :
+  value_type r = Some (ROk (VPrim Usize)) ->
   value_type l = Some (ROk a) -> is_pointer a = false ->
   exists es, resolve_expr (TBinary AdvancePointer l r) = Err es /\ node_errors2 l r [E550] es.
 Proof.
-  intros Hl Hp. apply binary_rejected.
-  unfold resolve_binary_op_type, get_type_of_operand. cbn [is_advance]. rewrite Hl. cbn [of_ann bind].
-  unfold analyze_operand_type. rewrite valid_operand_in_class.
+  intros Hr Hl Hp. apply binary_rejected.
+  unfold resolve_binary_op_type, get_type_of_operand. cbn [is_advance]. rewrite Hr, Hl. cbn [of_ann bind].
+  unfold analyze_operand_type. rewrite !valid_operand_in_class. cbn [bind].
+  change (in_class (VPrim Usize) valid_types_for_offset) with true. cbn [bind].
   destruct a as [p|i|i]; try discriminate; reflexivity.
 Qed.
 
@@ -513,13 +540,14 @@ Qed.
 
 Theorem accepted_advance_nodes e r0 l r :
   resolve_expr e = Ok r0 -> subexpr (TBinary AdvancePointer l r) e ->
-  exists t, value_type l = Some (ROk t) /\ is_pointer t = true.
+  value_type r = Some (ROk (VPrim Usize))
+  /\ exists t, value_type l = Some (ROk t) /\ is_pointer t = true.
 Proof.
   intros He Hs. destruct (accepted_subexpr _ _ _ Hs He) as [r' H].
   cbn [resolve_expr] in H. apply bind_ok in H as [lr [_ H]]. apply bind_ok in H as [t [Ht _]].
   unfold resolve_binary_op_type in Ht. cbn [is_advance] in Ht.
   apply bind_ok in Ht as [vt [Hvt Ht]]. apply analyze_operand_type_ok in Ht as [-> Hc].
-  apply of_ann_ok in Hvt. exists vt. split; [assumption|].
+  apply advance_type_ok in Hvt as [Hl Hr]. split; [assumption|]. exists vt. split; [assumption|].
   destruct vt as [p|i|i]; [destruct p; discriminate|reflexivity|discriminate].
 Qed.
 
@@ -569,7 +597,7 @@ Theorem well_typed_cast_nodes x src dst :
   well_typed (RPrimCast x src dst) = true ->
   exists a b, src = VPrim a /\ dst = VPrim b /\ a <> b /\ rtype x = src.
 Proof.
-  unfold well_typed. cbn [well_typed_gen]. intros H.
+  cbn [well_typed]. intros H.
   apply andb_prop in H as [H Hc]. apply andb_prop in H as [_ Ht].
   apply vtype_eqb_eq in Ht. destruct (prim_conversion_prims _ _ Hc) as [a [b [-> [-> Hab]]]]. eauto 10.
 Qed.
@@ -674,6 +702,9 @@ Proof.
   - intros s. rewrite forallb_forall in Hi. specialize (Hi s (all_prims_complete s)).
     now apply negb_true_iff.
 Qed.
+
+Theorem offset_table_ok o : mem_operand o valid_types_for_offset = operand_eqb o (OPrim Usize).
+Proof. destruct o as [p|]; [destruct p|]; reflexivity. Qed.
 
 (* the classes, read on value types *)
 Corollary in_class_binop op t :
@@ -1022,17 +1053,44 @@ Proof. apply (mismatch_rejected Add _ _ (VPrim Int32) (VPrim Int64)); try reflex
 
 (* ---------- surprises, as refutations / witnesses ---------- *)
 
-(* S1. AdvancePointer: the RIGHT operand is never looked at.  `&p .. true` and
-   `&p .. &p` pass the gate (witnesses exp/a.pn, exp/b.pn: the real compiler emits
-   `getelementptr i32, i32* %1, i1 %2` for the first and aborts inside LLVM with
-   "GEP indexes must be integers" for the second). *)
+(* S1. PINNED commit: AdvancePointer never looked at its RIGHT operand.  `&p .. true`
+   and `&p .. &p` passed the gate (witnesses exp/a.pn, exp/b.pn: the pinned compiler
+   emitted `getelementptr i32, i32* %1, i1 %2` for the first and aborted inside LLVM
+   with "GEP indexes must be integers" for the second).  Repaired: the offset must
+   be a usize (advance_offset_rejected, resolve_sound). *)
 Theorem strict_soundness_refuted :
-  exists e r, resolve_expr e = Ok r /\ well_typed_strict r = false.
-Proof. exists (TBinary AdvancePointer (lt PTR) (lf Bool)). eexists. split; vm_compute; reflexivity. Qed.
+  exists op l r res, resolve_binary_pinned op l r = Ok res /\ well_typed res = false.
+Proof.
+  exists AdvancePointer, (lt PTR), (lf Bool). eexists. split; vm_compute; reflexivity.
+Qed.
 
-Example advance_pointer_by_pointer_accepted :
-  resolve_expr (TBinary AdvancePointer (lt PTR) (lt PTR))
+Example advance_pointer_by_pointer_accepted_pinned :
+  resolve_binary_pinned AdvancePointer (lt PTR) (lt PTR)
   = Ok (RBinary AdvancePointer (RLeaf PTR) (RLeaf PTR) PTR).
+Proof. vm_compute. reflexivity. Qed.
+
+Example advance_pointer_by_pointer_rejected :
+  resolve_expr (TBinary AdvancePointer (lt PTR) (lt PTR)) = Err [E550]
+  /\ resolve_expr (TBinary AdvancePointer (lt PTR) (lf Bool)) = Err [E550]
+  /\ resolve_expr (TBinary AdvancePointer (lt PTR) (lf Int8)) = Err [E550].
+Proof. vm_compute. repeat split. Qed.
+
+Example advance_pointer_by_usize_accepted :
+  resolve_expr (TBinary AdvancePointer (lt PTR) (lf Usize))
+  = Ok (RBinary AdvancePointer (RLeaf PTR) (RLeaf (VPrim Usize)) PTR).
+Proof. vm_compute. reflexivity. Qed.
+
+(* outside AdvancePointer the pinned check and the current one coincide *)
+Lemma pinned_same_elsewhere op l r :
+  is_advance op = false -> resolve_binary_pinned op l r = resolve_expr (TBinary op l r).
+Proof.
+  intros H. unfold resolve_binary_pinned, resolve_binary_op_type_pinned.
+  cbn [resolve_expr]. unfold resolve_binary_op_type. now rewrite H.
+Qed.
+
+(* the offset error comes first: a non-usize offset next to a non-pointer gives ONE E550 *)
+Example advance_offset_checked_first :
+  resolve_expr (TBinary AdvancePointer (lf Int32) (lf Bool)) = Err [E550].
 Proof. vm_compute. reflexivity. Qed.
 
 (* S2. the errors of the operands hide the error of the node: here the outer
@@ -1110,3 +1168,5 @@ Print Assumptions check_call_gen_sound.
 Print Assumptions check_call_sound.
 Print Assumptions call_gate_sound.
 Print Assumptions strict_soundness_refuted.
+Print Assumptions advance_offset_rejected.
+Print Assumptions accepted_advance_nodes.
